@@ -141,7 +141,7 @@ func (e *Engine) runPath(fn *ssa.Function, spec PathSpec, solver *smt.Solver, ti
 		globals: map[*ssa.Global]*Loc{}, varCount: map[string]int{},
 		mutexes: map[*Loc]*mutexState{}, wgs: map[*Loc]*wgState{}, onces: map[*Loc]*onceState{},
 		ufApps: map[string][]ufApp{}, initDone: map[*ssa.Package]bool{}, pbCache: map[*Loc]*PRMsg{},
-		tierVals: tierVals, sleep: map[string]footprint{},
+		tierVals: tierVals, sleep: map[string]footprint{}, allowLeak: true,
 	}
 	if e.Cfg.RaceDetect {
 		ex.race = newRaceState()
